@@ -30,6 +30,9 @@ CHECKS = {
  "C17": ("proptest-generated message sequences × producer schedules (scripted Pending polls on the harness's own executor) through the real handler/stream/serializer; oracle chain: independent response parser → strict chunk decoder (cross-checked with chunked_transfer) → independent WHATWG event-stream parser",
          "Exploration of inputs × schedules: 60 000 (quick) sequences of up to 12 adversarial messages under scripted paces for two producer kinds. Right level: the property is about what a conforming client decodes; an independent decoder chain is the direct oracle, and the schedule is owned by the harness.",
          "a self-waking Pending models any pace of the producer; messages without NUL", "DESIGN.md §7 C17"),
+ "C18": ("exhaustive enumeration of handler/accept-loop interleavings under a step controller (real closure on ctrlc's thread after a real raise(SIGINT), real UntilInterrupt::poll; hook H5) + proptest-generated longer schedules + generated child-process scenarios (real howl, blocked in-flight sessions, real SIGINT, generated release orders); oracle = wake-up accounting invariant and causal event order",
+         "Exploration; the space of interleavings of the 4 handler steps with three polls of the accept loop (715 schedules) is enumerated completely each run, longer schedules and end-to-end session scenarios are sampled. Right level: the lost wake-up needs one specific interleaving, which only a harness that owns the schedule reaches deterministically.",
+         "SeqCst interleavings at hook-point granularity; tokio only; part 2 uses 10–12 s limits only to decide 'never'", "DESIGN.md §7 C18"),
  "C19": ("proptest-generated directory trees on a scratch file system × Dir settings × request paths; model-based oracle (route → bytes/MIME map computed from the tree; collisions must be refused)",
          "Exploration of configurations (trees, mount routes, omit settings) × inputs (paths incl. traversal/encoding/near-miss variants) through the real Dir registration, router and serializer. Right level: 'exactly its files and nothing else' needs both directions checked over many trees.",
          "documented restrictions of Dir (supported extensions, UTF-8 text, valid segment names) are generator invariants; scratch trees live under /verif/target/tmp", "DESIGN.md §7 C19"),
